@@ -103,7 +103,9 @@ def run(ctx):
     ctx.check(norm(L.expr).replace(" ", "") == "range(self.max_evl)", "R2", md, L.stmt, f"{CLS}.run", L.expr, "evaluation cap: for i in range(self.max_evl)",
               f"loop iterates `{norm(L.expr)}`")
     body_nodes = g.loop_body(L.id)
-    breaks = [n for n in g.nodes if n.kind == "stmt" and isinstance(n.stmt, ast.Break) and n.id in body_nodes and _innermost_loop(md, n.stmt) is L.stmt]
+    # the loop is left early through `break`, or through a `return` inside the loop body (both count as "stopping before the cap")
+    breaks = [n for n in g.nodes if n.kind == "stmt" and n.id in body_nodes and _innermost_loop(md, n.stmt) is L.stmt
+              and (isinstance(n.stmt, ast.Break) or (isinstance(n.stmt, ast.Return) and n.id in body_nodes))]
     conts = [n for n in g.nodes if n.kind == "stmt" and isinstance(n.stmt, ast.Continue) and _innermost_loop(md, n.stmt) is L.stmt]
     ctx.check(len(breaks) >= 1, "R2", md, L.stmt, f"{CLS}.run", "break", "the loop can stop before the cap", "the optimiser never stops before the cap")
     # interface names by position, not by spelling: run returns (max force, energy change); onestep yields (force, energy)
@@ -178,9 +180,23 @@ def run(ctx):
         raise AnalysisError("SD run(): convergence report statements not found")
     break_ids = {b.id for b in breaks}
     body_set = set(body_nodes)
+    # the decision that leads to the early exit: the innermost `if` of the loop that controls the exit statement, with the polarity under which the exit is taken.
+    # Everything after that decision (a report printed before a `return` inside the loop, or after a `break`) happens "because the stop test succeeded".
+    decide = set()
+    for b in breaks:
+        ctrl_ = controlling(md, b.stmt, stop=L.stmt)
+        if ctrl_:
+            iff_ = ctrl_[0][2]
+            for n_ in g.nodes:
+                if n_.kind == "if" and n_.stmt is iff_:
+                    # polarity of the whole test for the branch that holds the exit
+                    in_body = any(b.stmt is x or b.stmt in ast.walk(x) for x in iff_.body)
+                    decide.add((n_.id, "true" if in_body else "false"))
 
     def tag_edge(a, b, lab, tag):
-        # leaving the loop: through a break of this loop, or through exhaustion of the iterator
+        # leaving the loop: through the successful stop test (break / return in the body), or through exhaustion of the iterator
+        if (a, lab) in decide:
+            return "break"
         if a in break_ids and lab == "break":
             return "break"
         if a == L.id and lab == "false":
